@@ -610,6 +610,35 @@ theorem ipool_put_then_get (s s1 : IState) (c : Nat) (r : Option Nat)
     (hp : istep s (.put (some c)) = some (s1, r)) : ∃ s2, istep s1 .get = some (s2, some c) :=
   ipool_put_then_get_returns_it s s1 c r hp
 
+/-- a default-constructed `igris::pool` (no zone) is an empty pool of capacity 0
+for every query, after every history of `get` / `put(NULL)`: `size()`, `room()`,
+`avail()` are 0, `get()` answers null, no cell is allocated, the iteration is empty -/
+theorem ipool_default_constructed (ops : List IOp) (s : IState)
+    (hr : irun ⟨IPool.default, []⟩ ops = some s) (i : Int) :
+    s.pool.cells = 0 ∧ s.pool.room = 0 ∧ s.pool.avail = 0 ∧ s.pool.get.1 = none ∧
+    s.pool.cellIsAllocated i = false ∧ s.pool.iterAll = [] ∧ s.live = [] := by
+  have hk : ∀ ops s, irun ⟨IPool.default, []⟩ ops = some s → s = ⟨IPool.default, []⟩ := by
+    intro ops
+    induction ops with
+    | nil => intro s h; simp only [irun] at h; cases h; rfl
+    | cons op ops ih =>
+      intro s h
+      cases op with
+      | get => exact ih s (by simpa [irun, istep, IPool.get, Pool.alloc, IPool.default, Pool.init] using h)
+      | put c =>
+        cases c with
+        | none => exact ih s (by simpa [irun, istep, IPool.put] using h)
+        | some c => simp [irun, istep] at h
+  rw [hk ops s hr]
+  refine ⟨rfl, rfl, rfl, rfl, ?_, rfl, rfl⟩
+  simp only [IPool.cellIsAllocated, IPool.cells, IPool.default, Nat.zero_div]
+  rw [if_pos (by omega)]
+
+/-- FULL STATEMENT violated by `size()` as it was (`cellsOrig`): on a
+default-constructed pool it divides by `_elemsz = 0` (trap) -/
+theorem ipool_sizeOrig_default_witness :
+    IPool.default.cellsOrig = none ∧ IPool.default.cells = 0 ∧ (IPool.init 48 16).cellsOrig = some 3 := by decide
+
 /-! non-vacuity of the multi-zone hypotheses -/
 
 example : (⟨16, 64, 16⟩ : Zone).WF := ⟨by decide, by decide⟩
